@@ -36,7 +36,7 @@ CHECKS = {
         technique="stateless model checking of the real goroutine code: every execution with bounded fault prefixes (drop/dup/delay after a clean handshake) and scheduling deviations, virtual time to a 150 s horizon, progress/quiet oracles",
         text="All executions of the uni/bidi/adaptive/keepalive traffic scenarios within the listed deviation budgets are run to a horizon far beyond any recovery time; at the end every accepted message must have been delivered (keepalive off: no endpoint may have closed), no call may hang after a self-closure, and after everything is acknowledged no DATA packet may be transmitted for 12 s.",
         note=NOTE_E1 + " Goroutines are not starved (virtual time only advances when no thread can run). Lasso detection is replaced by the long horizon."),
-    "C07": dict(built=True, engine=E1 + "+" + E2, level=EX, design="4/C07",
+    "C07": dict(built=True, engine=E1 + "+" + E2, level=MC, design="4/C07",
         technique="bounded-exhaustive decoder input enumeration (all byte strings <= 3 bytes, 4 bytes by tier) plus model checking of live endpoints with one hostile packet injected at every quiescent point, all 256 SYN window bytes, and bounded-exhaustive truncation/substitution of Noise handshake acts and records",
         text="Composite: (decoders) every short byte string through gbn.Deserialize, MsgData.Deserialize and the websocket JSON envelope; (live) a hostile packet alphabet injected into either direction at every idle point of a running connection and a raw client proposing every window byte 0..255, with panic and window-invariant oracles at every quiescent state; (noise) every truncation / zero / 0xff / cross-session substitution of each handshake act and of transport records.",
         note=NOTE_E1 + " Longer random byte strings are not enumerated."),
@@ -61,7 +61,7 @@ CHECKS = {
         text="Every (maxChunkSize 0..4) x (sequence of up to 2 (quick) / 3 (thorough) messages of length 0..8 / 0..12) is run on the real connection; selected sequences under the deviation ladder; deadlines that expire between chunks with the timed-out call retried. Oracle: Recv results equal Send-accepted payloads element- and byte-wise.",
         note=NOTE_E1),
     "C18": dict(built=True, engine=E1, level=MC, design="4/C18",
-        technique="stateless model checking with every lock/atomic/Once/WaitGroup operation as a scheduling point: unit seams (two threads on one ticker, three on one timeout manager) and the whole connection with API calls from several goroutines and traffic timed onto timer expiries; panic and deadlock oracles",
+        technique="stateless model checking with every lock/atomic/Once/WaitGroup operation as a scheduling point (deciding step; a free-running -race pass of the same scenario bodies is auxiliary): unit seams (two threads on one ticker, three on one timeout manager) and the whole connection with API calls from several goroutines and traffic timed onto timer expiries; panic and deadlock oracles",
         text="All interleavings within budget of the ticker and timeout-manager seams and of a keepalive connection whose peer traffic arrives at the instant of the ping tick (and one quantum either side): no recovered panic in any thread, no thread left waiting for a lock/Once/WaitGroup after the drain.",
         note=NOTE_E1 + " Data races proper are not decided by the exhaustive step (the cooperative scheduler's hand-offs hide them from the race detector); they are looked for by a separate free-running -race pass reported as auxiliary evidence."),
     "C02": dict(built=True, engine=E2, level=FE, design="4/C02",
